@@ -1007,8 +1007,9 @@ class ArgumentParser(ParserDeprecations, ActionsContainer, ArgumentLinking, argp
                     elif isinstance(val, Path) and key in self.save_path_content and "r" in val.mode:
                         val_path = Path(os.path.basename(val.absolute), mode="fc")
                         check_overwrite(val_path)
+                        val_content = val.get_content()  # before the target is opened: it may be the very same file
                         with open(val_path.absolute, "w") as f:
-                            f.write(val.get_content())
+                            f.write(val_content)
                         cfg[key] = type(val)(str(val_path))
 
             with change_to_path_dir(path_fc), parser_context(parent_parser=self):
